@@ -3,7 +3,7 @@
     our own. *)
 From Coq Require Import ZArith List.
 From Copia Require Import Model.Checksum Model.Delta.
-From Copia Require Model.Hub Model.HubExec.
+From Copia Require Model.Hub Model.HubExec Model.HubSeq.
 Import ListNotations.
 Require Extraction.
 Require Import ExtrOcamlBasic.
@@ -30,4 +30,4 @@ Extraction "model.ml"
   rc_new_ck rc_roll_ck rc_push_ck frc_new_ck frc_roll_ck frc_push_ck
   spec_digest_exec sums
   m_signature m_delta m_patch m_greedy lits out_len
-  HubExec.hub_exec.
+  HubExec.hub_exec HubExec.wire_exec HubSeq.refused.
